@@ -12,8 +12,12 @@ UpdateViol(e) ==
     LET lt == e.letter
         \* a region whose user range ends exactly at 2^64 may be refused (TopOpen in MemTable.tla)
         IsTop(r) == "top" \in DOMAIN pool[r + 1] /\ pool[r + 1].top
-        v == CASE e.op = "set_mem_table" -> TopOpen(SetVerdict(lt.rids, lt.badfd), \E i \in 1..Len(lt.rids) : IsTop(lt.rids[i]))
-               [] e.op = "add_mem_reg" -> TopOpen(AddVerdict(table, lt.rid, lt.badfd), IsTop(lt.rid))
+        \* a descriptor opened read-only cannot back a region whose bytes the backend's writes must reach: refusing it is what the
+        \* pinned code does (the shared writable mapping fails); acceptance is left open and then judged by the probes, which
+        \* require backend writes to be visible in the file
+        RdOnly == "rdonly" \in DOMAIN lt /\ lt.rdonly
+        v == CASE e.op = "set_mem_table" -> TopOpen(SetVerdict(lt.rids, lt.badfd), RdOnly \/ \E i \in 1..Len(lt.rids) : IsTop(lt.rids[i]))
+               [] e.op = "add_mem_reg" -> TopOpen(AddVerdict(table, lt.rid, lt.badfd), RdOnly \/ IsTop(lt.rid))
                [] OTHER -> RemVerdict(table, lt.rid, lt.size_delta)
         acc == e.status = "ok"
         t2 == IF ~acc THEN table ELSE CASE e.op = "set_mem_table" -> SeqToSet(lt.rids) [] e.op = "add_mem_reg" -> table \cup {lt.rid} [] OTHER -> RemResult(table, lt.rid)
